@@ -411,4 +411,13 @@ def main(argv=None):
 
 
 if __name__ == "__main__":
-    sys.exit(main())
+    try:
+        rc = main()
+    except SystemExit:
+        raise
+    except BaseException as e:  # harness failure: never exit 1, never print VIOLATION
+        import traceback
+        traceback.print_exc()
+        print(f"HARNESS-ERROR {type(e).__name__}: {e}", file=sys.stderr)
+        rc = 2
+    sys.exit(rc)
